@@ -13,3 +13,106 @@ def units(tier, seed):
                ("LSLMLEL", 2, 1), ("L", 4, 1)]
         t = 1500
     return pipeline_units("C30", cfg, t)
+
+
+# ---------------------------------------------------------------- the call site: Linter.lint_parsed -> LintedFile.fix_string
+SRC = "abcdefgh"
+OPTS = [(s, ln, r) for s in (1, 2, 3) for ln in (0, 1) for r in ("X", "")]
+
+
+def _run_site(p0, p1, p_alt):
+    """Patches p0, p1 come from the root variant, p_alt (or None) from an alternate variant; returns the fixed text."""
+    import sqlfluff.core.linter.linter as lmod
+    from sqlfluff.core import FluffConfig
+    from sqlfluff.core.linter.common import ParsedString, ParsedVariant
+    from sqlfluff.core.linter.patch import FixPatch
+    from sqlfluff.core.rules.base import RulePack
+    from sqlfluff.core.templaters import TemplatedFile
+    tf = TemplatedFile.from_string(SRC)
+
+    def fp(o):
+        s, ln, r = o
+        return FixPatch(slice(s, s + ln), r, "literal", slice(s, s + ln), SRC[s:s + ln], SRC[s:s + ln])
+
+    def norm(ps):   # what generate_source_patches hands on: de-duplicated, ordered by source start
+        out = []
+        for p in sorted(ps, key=lambda x: x.source_slice.start):
+            if p not in out:
+                out.append(p)
+        return out
+    trees = [type("T", (), {"raw": SRC})(), type("T", (), {"raw": SRC})()]
+    per_tree = {id(trees[0]): norm([fp(p0), fp(p1)]), id(trees[1]): norm([fp(p_alt)]) if p_alt else []}
+    variants = [ParsedVariant(tf, trees[0], [], [])] + ([ParsedVariant(tf, trees[1], [], [])] if p_alt else [])
+    parsed = ParsedString(variants, [], {}, FluffConfig(overrides={"dialect": "ansi"}), "f.sql", SRC)
+    real_lfp, real_gsp = lmod.Linter.__dict__["lint_fix_parsed"], lmod.generate_source_patches
+    lmod.Linter.lint_fix_parsed = classmethod(lambda cls, tree, config, rule_pack, fix=False, fname=None, templated_file=None, formatter=None: (tree, [], None, []))
+    lmod.generate_source_patches = lambda tree, templated_file: list(per_tree[id(tree)])
+    try:
+        linted = lmod.Linter.lint_parsed(parsed, RulePack([], {}), fix=True)   # REAL
+        out, _ = linted.fix_string()                                           # REAL
+    finally:
+        lmod.Linter.lint_fix_parsed = real_lfp
+        lmod.generate_source_patches = real_gsp
+    return out
+
+
+def _explained(out, edits):
+    import itertools
+    from harness.patch_pipeline import _apply_subset
+    uniq = sorted(set(edits))
+    for k in range(len(uniq) + 1):
+        for sub in itertools.combinations(uniq, k):
+            if all(a[1] <= b[0] or b[1] <= a[0] for a, b in itertools.combinations(sub, 2)) and \
+                    len({(a[0], a[1]) for a in sub}) == len(sub) and _apply_subset(SRC, list(sub)) == out:
+                return True
+    return False
+
+
+def judge_site(p0, p1, p_alt):
+    out = _run_site(p0, p1, p_alt)
+    edits = [(s, s + ln, r) for s, ln, r in ([p0, p1] + ([p_alt] if p_alt else []))]
+    if _explained(out, edits):
+        return None
+    return (f"source {SRC!r}; root-variant edits {[(s, s + ln, r) for s, ln, r in (p0, p1)]}, alternate-variant edit "
+            f"{(p_alt[0], p_alt[0] + p_alt[1], p_alt[2]) if p_alt else None} -> fixed text {out!r}: no set of pairwise-disjoint edits explains it")
+
+
+def make_site():
+    def factory(excluded=frozenset()):
+        import sqlfluff.core.linter.linter as lmod
+        from symlite.values import NullLogger
+        lmod.linter_logger = NullLogger()
+
+        def harness(c):
+            from symlite.values import choose, fresh_bool
+            p0, p1 = choose(c, "root_edit0", OPTS), choose(c, "root_edit1", OPTS)
+            p_alt = choose(c, "alternate_edit", OPTS) if bool(fresh_bool(c, "has_alternate_variant")) else None
+            if p_alt is None:
+                c.witness("single_variant")
+            if p0 != p1 and p0[0] == p1[0] and p0[1] == 0 and p1[1] == 0:
+                c.witness("two_insertions_at_one_point")
+            return judge_site(p0, p1, p_alt) is None
+        return harness
+    return factory
+
+
+def replay_site(cex):
+    p0, p1 = OPTS[int(cex.get("root_edit0", 0))], OPTS[int(cex.get("root_edit1", 0))]
+    p_alt = OPTS[int(cex.get("alternate_edit", 0))] if cex.get("has_alternate_variant") else None
+    return judge_site(p0, p1, p_alt)
+
+
+_pipeline_only_units = units
+
+
+def units(tier, seed):  # noqa: F811
+    from lib.runner import Unit
+    return _pipeline_only_units(tier, seed) + [Unit(
+        name="c30.lint_parsed_merge_site", functions=["sqlfluff.core.linter.linter.Linter.lint_parsed (variant patch assembly)", "merge_source_patches",
+                                                      "LintedFile.fix_string / _slice_source_file_using_patches / _build_up_fixed_source_string"],
+        bounds={"source": SRC, "root-variant edits": "2, each (start 1..3, length 0..1, replacement 'X' or '')", "alternate variant": "absent / 1 edit"},
+        make=make_site(), replay=replay_site,
+        stubs=["lint_fix_parsed -> no-op", "generate_source_patches -> the forked edits of that variant, de-duplicated and ordered by start "
+               "(its documented output)"],
+        outside=["templated sources (see the pipeline units)", ">2 variants"],
+        witnesses_required=["single_variant", "two_insertions_at_one_point"], sharded=True, timeout_s=600)]
